@@ -229,7 +229,7 @@ Section PageProofs.
     unfold cells_of, nn. induction 1 as [|x d r dl Hrd H IH]; intros t bs Hbs Hsuf; simpl; auto.
     destruct Hrd as [[-> Hd]|[Hx ->]].
     - simpl in *. f_equal. eapply IH; eauto.
-    - replace (nonneg x) with true in * by (symmetry; apply Z.leb_le; auto).
+    - simpl in *. replace (nonneg x) with true in * by (symmetry; apply Z.leb_le; auto).
       simpl in *. destruct bs as [|v bs]; [discriminate Hbs|]. injection Hbs as Hv Hbs'.
       f_equal.
       + f_equal. unfold lookup.
@@ -249,7 +249,7 @@ Section PageProofs.
     unfold cells_of, nn. induction 1 as [|x d r dl Hrd H IH]; intros bs Hbs; simpl; auto.
     destruct Hrd as [[-> Hd]|[Hx ->]].
     - simpl in *. destruct (N.eqb_spec d md); try contradiction. f_equal. auto.
-    - replace (nonneg x) with true in * by (symmetry; apply Z.leb_le; auto).
+    - simpl in *. replace (nonneg x) with true in * by (symmetry; apply Z.leb_le; auto).
       simpl in *. rewrite N.eqb_refl. destruct bs as [|v bs]; [discriminate Hbs|].
       injection Hbs as Hv Hbs'. f_equal.
       + f_equal. unfold lookup. destruct (Z.ltb_spec x 0); try lia. auto.
